@@ -16,7 +16,7 @@ import (
 
 // G-MSG: messages of a modelled type, populated through dynamicpb.
 
-var vStrings = []string{"a", "héllo wörld", "with \"quotes\" and \\ and / and 'apostrophes'", "line\nbreak\ttab\rcr", "\u0001\u001f\u007f", "\x00\x01\x02\x03\x04\x05\x06\x07\x08\x09\x0a\x0b\x0c\x0d\x0e\x0f\x10\x11\x12\x13\x14\x15\x16\x17\x18\x19\x1a\x1b\x1c\x1d\x1e\x1f", "b\vb\x0e\x0f", "日本語😀", "</script><!--", "   sep", " leading and trailing ", strings.Repeat("long ", 60), "{\"json\":[1,2]}", "replacement \uFFFD char", "\uFFFD", ""}
+var vStrings = []string{"a", "héllo wörld", "with \"quotes\" and \\ and / and 'apostrophes'", "line\nbreak\ttab\rcr", "\u0001\u001f\u007f", "\x00\x01\x02\x03\x04\x05\x06\x07\x08\x09\x0a\x0b\x0c\x0d\x0e\x0f\x10\x11\x12\x13\x14\x15\x16\x17\x18\x19\x1a\x1b\x1c\x1d\x1e\x1f", "b\vb\x0e\x0f", "日本語😀", "</script><!--", "   sep", " leading and trailing ", strings.Repeat("long ", 60), "{\"json\":[1,2]}", "replacement \uFFFD char", "\uFFFD", "fish & chips > all <b> \u2028 \u2029", ""}
 var vKeys = []string{"abc", "0123456789abcdefghijAB", "9f1b2c3d-4e5f-6a7b-8c9d-0e1f2a3b4c5d", "key with space", ""}
 var vInt32 = []int64{1, -1, math.MaxInt32, math.MinInt32, 42, 0}
 var vInt64 = []int64{1, -1, math.MaxInt64, math.MinInt64, 1<<53 + 1, -(1<<53 + 1), 0}
